@@ -252,6 +252,16 @@ impl SessionStorageBackend for SqliteSessionStore {
     /// The server-side state is left unchanged.
     #[tracing::instrument(name = "Change id for server-side session record", level = tracing::Level::INFO, skip_all)]
     async fn change_id(&self, old_id: &SessionId, new_id: &SessionId) -> Result<(), ChangeIdError> {
+        // A record that has expired, but has not been deleted yet, must not get in the way:
+        // as far as callers are concerned, there is no record under `new_id`.
+        sqlx::query(
+            "DELETE FROM sessions \
+            WHERE id = ? AND deadline <= unixepoch()",
+        )
+        .bind(new_id.inner().to_string())
+        .execute(&self.0)
+        .await
+        .map_err(|e| ChangeIdError::Other(e.into()))?;
         let query = sqlx::query(
             "UPDATE sessions \
             SET id = ? \
